@@ -4,13 +4,10 @@ import KvarnModel.Lemmas.Utf8
 namespace Sanitize
 open Rust
 
-/-- **the 400 condition, exactly**: `pathOk` is false iff the decoded path contains `./`, does not start
-with `/`, or is absolute after the leading `/` is removed. -/
-theorem sanitize_rejects_iff (p : Bytes) :
-    pathOk p = false ↔
-      (containsSub DOTSLASH (percentDecode p) = true ∨ (percentDecode p).head? ≠ some SLASH ∨
-        ((percentDecode p).drop 1).head? = some SLASH) := by
-  unfold pathOk
+theorem byteOk_false_iff (d : Bytes) :
+    byteOk d = false ↔
+      (containsSub DOTSLASH d = true ∨ d.head? ≠ some SLASH ∨ (d.drop 1).head? = some SLASH) := by
+  unfold byteOk
   simp only [Bool.and_eq_false_iff, Bool.not_eq_false', beq_eq_false_iff_ne, ne_eq, Bool.not_eq_eq_eq_not,
     Bool.not_true, beq_iff_eq]
   constructor
@@ -22,6 +19,62 @@ theorem sanitize_rejects_iff (p : Bytes) :
     · exact .inl (.inl h)
     · exact .inl (.inr h)
     · exact .inr (by simpa using h)
+
+/-- **the 400 condition, at full strength**: a target whose percent-decoded path — the decoded *bytes*, valid UTF-8
+or not — contains `./`, does not start with `/`, or is absolute after the leading `/` is removed, is rejected. No
+proviso about the encoding (the earlier form of this theorem was about `utils::percent_decode`'s string, which is the
+raw path when the decoding is not UTF-8: `/%ff/%2e%2e/x` slipped through, finding F39). -/
+theorem sanitize_rejects (p : Bytes)
+    (h : containsSub DOTSLASH (pdecode p) = true ∨ (pdecode p).head? ≠ some SLASH ∨
+        ((pdecode p).drop 1).head? = some SLASH) : pathOk p = false := by
+  unfold pathOk
+  rw [(byteOk_false_iff _).2 h]; rfl
+
+/-- … and exactly when: the only other rejected targets are those whose decoding is not UTF-8 *and* whose raw spelling
+does not start with a single `/` (`parse::uri` on the fallback string) — more is refused, never less -/
+theorem sanitize_rejects_iff (p : Bytes) :
+    pathOk p = false ↔
+      (containsSub DOTSLASH (pdecode p) = true ∨ (pdecode p).head? ≠ some SLASH ∨
+        ((pdecode p).drop 1).head? = some SLASH) ∨
+      (utf8Valid (pdecode p) = false ∧ (p.head? ≠ some SLASH ∨ (p.drop 1).head? = some SLASH)) := by
+  constructor
+  · intro h
+    by_cases hb : byteOk (pdecode p) = false
+    · exact .inl ((byteOk_false_iff _).1 hb)
+    · have hb' : byteOk (pdecode p) = true := by simpa using hb
+      right
+      unfold pathOk at h
+      rw [hb'] at h
+      by_cases hv : utf8Valid (pdecode p) = true
+      · -- valid: the second half repeats two of the byte tests
+        exfalso
+        have hpd : percentDecode p = pdecode p := by simp [percentDecode, hv]
+        unfold byteOk at hb'
+        simp only [hpd, Bool.true_and] at h
+        simp only [Bool.and_eq_true] at hb'
+        rw [hb'.1.2, hb'.2] at h; cases h
+      · have hv' : utf8Valid (pdecode p) = false := by simpa using hv
+        have hpd : percentDecode p = p := by simp [percentDecode, hv']
+        refine ⟨hv', ?_⟩
+        simp only [hpd, Bool.true_and, Bool.and_eq_false_iff, beq_eq_false_iff_ne, ne_eq, Bool.not_eq_eq_eq_not,
+          Bool.not_false, beq_iff_eq] at h
+        rcases h with h | h
+        · exact .inl h
+        · exact .inr h
+  · rintro (h | ⟨hv, h⟩)
+    · exact sanitize_rejects p h
+    · unfold pathOk
+      have hpd : percentDecode p = p := by simp [percentDecode, hv]
+      simp only [hpd, Bool.and_eq_false_iff, beq_eq_false_iff_ne, ne_eq, Bool.not_eq_eq_eq_not, Bool.not_false,
+        beq_iff_eq]
+      rcases h with h | h
+      · exact .inr (.inl h)
+      · exact .inr (.inr h)
+
+/-- the witness of F39: every `./` encoded next to an escape that is not UTF-8 -/
+example : pathOk "/%ff/%2e%2e/x".toUTF8.toList = false := by decide +kernel
+example : pathOk "/%2e%2e%2fsecret-%ff.txt".toUTF8.toList = false := by decide +kernel
+example : pathOk "/caf%e9.html".toUTF8.toList = true := by decide +kernel
 
 theorem containsSub_cons [BEq α] (pat l : List α) (a : α) (h : containsSub pat l = true) : containsSub pat (a :: l) = true := by
   unfold containsSub at *
@@ -38,11 +91,11 @@ theorem containsSub_head [BEq α] (pat l : List α) (h : startsWith l pat = true
   | cons a as => simp [containsSub, findSub, h]
 
 /-- internal routes `/./…` can never pass the sanitizer, however they are spelled -/
-theorem internal_routes_unreachable (p : Bytes) (h : startsWith (percentDecode p) [SLASH, DOT, SLASH] = true) :
+theorem internal_routes_unreachable (p : Bytes) (h : startsWith (pdecode p) [SLASH, DOT, SLASH] = true) :
     pathOk p = false := by
-  rw [sanitize_rejects_iff]
+  apply sanitize_rejects
   left
-  cases hd : percentDecode p with
+  cases hd : pdecode p with
   | nil => rw [hd] at h; simp [startsWith] at h
   | cons a as =>
     rw [hd] at h
@@ -327,12 +380,10 @@ theorem no_dot_segments (cfg : Cfg) (hc : cfg.Sane) (p rel : Bytes) (hok : pathO
     have hv : utf8Valid (pdecode p) = true := by
       rw [hsuf, hdec] at hvr
       exact Rust.utf8Valid_left_of_append _ suf hsv hvr
-    have hno : containsSub DOTSLASH (percentDecode p) = false := by
-      unfold pathOk at hok
+    have hno : containsSub DOTSLASH (pdecode p) = false := by
+      unfold pathOk byteOk at hok
       simp only [Bool.and_eq_true, Bool.not_eq_eq_eq_not, Bool.not_true] at hok
-      exact hok.1.1
-    have hpd : percentDecode p = pdecode p := by simp [percentDecode, hv]
-    rw [hpd] at hno
+      exact hok.1.1.1
     have h1 := no_dotslash_append (pdecode p) suf hno hs1
     rw [← hdec, ← hsuf] at h1
     have : containsSub DOTSLASH (pdecode (uriRedirect cfg p)) = true :=
